@@ -14,7 +14,7 @@ import vlib
 from vlib import Violation, coq_float, coq_Q
 
 from agilerl.components.data import Transition
-from agilerl.components.replay_buffer import PrioritizedReplayBuffer
+from agilerl.components.replay_buffer import MultiStepReplayBuffer, PrioritizedReplayBuffer
 from agilerl.components.sampler import Sampler
 
 INF = float("inf")
@@ -101,8 +101,10 @@ class C11(vlib.Driver):
                     "and passed as tables)",
                     "correspondence harness harness/c11.py (scripted torch.rand, tagged transitions, hex-float exchange)",
                     "PrimFloat/Uint63 primitives (binary64 arithmetic of the Coq kernel) for the correspondence instance only"]
-    assumptions = ["update_priorities is called with indices of stored transitions (as returned by sample); an index >= len(buffer) "
-                   "is outside the guard of sampled_are_stored (lemma update_unstored_escapes shows why)",
+    assumptions = ["theorems per_invariant / sampled_are_stored (code as it is): update_priorities addresses stored indices; the "
+                   "property's quantifier has no such restriction, so an accepted update of an empty slot is reported "
+                   "(clause update-unstored-accepted, theorem unstored_update_refuted; repair fixes/C11-update-priority-stored-index.patch, "
+                   "for which strict_invariant / strict_sampled_are_stored hold without the guard)",
                    "batches no wider than max_size (ReplayBuffer precondition, C09)",
                    "sample is called on a non-empty buffer with batch_size >= 1",
                    "exact arithmetic in the theorems; binary64 rounding is tied by bit-exact K on the reachable draw grid "
@@ -110,6 +112,20 @@ class C11(vlib.Driver):
                    "priorities are finite positive floats; float('inf') of the min tree is represented by None in the model"]
     shard = 20       # small files: coqc needs ~0.5 GB per MB of hex-float literals
     coq_dirs = ("C09",)      # C11/Joint.v composes the priority model with the C09 ring buffer
+
+    strict = False
+
+    def setup(self, tier):
+        """K follows the assertion the tree makes in _update_priority (idx < max_size, or idx < len after the repair);
+        the oracle states the property whichever it is."""
+        b = PrioritizedReplayBuffer(max_size=2, alpha=1.0)
+        b.add(make_transition([1]))
+        try:
+            b.update_priorities(torch.tensor([1]), torch.tensor([1.0]))
+            self.strict = False
+        except AssertionError:
+            self.strict = True
+        self.notes = [f"_update_priority assertion observed on this tree: idx < {'len(buffer)' if self.strict else 'max_size'}"]
 
     # ------------------------------------------------------------------ generation
     def _draw(self, rng):
@@ -154,14 +170,16 @@ class C11(vlib.Driver):
                 prios = [self._prio(rng, dt) for _ in range(k)]
                 if rng.random() < 0.04:
                     idxs[rng.randrange(k)] = m            # malformed: the assertion 0 <= idx < max_size fires
-                ops.append(["update", idxs, prios, dt] + (["col"] if rng.random() < 0.4 else []))
+                elif size < m and rng.random() < 0.05:
+                    idxs[rng.randrange(k)] = rng.choice([size, m - 1])   # an empty slot below max_size
+                ops.append(["update", idxs, prios, dt] + ([rng.choice(["col", "np"])] if rng.random() < 0.5 else []))
             elif r < 0.96:
                 b = rng.choice([1, 2, 3, 4, 5, 7, 8])
                 ops.append(["sample", [self._draw(rng) for _ in range(b)]])
             else:
                 ops.append(["clear"]); size = 0
         return {"kind": "float", "cap": m, "alpha": alpha, "beta": beta, "ops": ops, "every": every,
-                "via_sampler": rng.random() < 0.5}
+                "via_sampler": rng.random() < 0.5, "defaults": rng.random() < 0.5}
 
     def _exact_case(self, rng, m, nops, every):
         ops, size = [], 0
@@ -199,10 +217,31 @@ class C11(vlib.Driver):
         case["ranges"] = rg
         return case
 
+    def _boundary_cases(self):
+        """guards and defaults no random case is sure to hit"""
+        out = []
+        # update of an empty slot: every (max_size, len, index) with len <= index < max_size, max_size <= 5
+        for m in (2, 3, 4, 5):
+            for size in range(1, m):
+                for idx in sorted({size, m - 1}):
+                    out.append({"kind": "exact", "cap": m, "alpha": 1.0, "beta": 0.4, "every": 1,
+                                "ops": [["add", size], ["update", [0, idx], [2.0, 3.0], "f32"], ["sample", [0.0, 0.9375]],
+                                        ["add", 1], ["sample", [0.5, 0.9375]]]})
+        # stale indices after clear()
+        out.append({"kind": "exact", "cap": 4, "alpha": 1.0, "beta": 0.4, "every": 1,
+                    "ops": [["add", 3], ["sample", [0.5, 0.9375]], ["clear"], ["add", 1], ["update", [2], [5.0], "f32"],
+                            ["sample", [0.9375]]]})
+        # constructor / sample defaults (alpha = 0.6, beta = 0.4 not passed), numpy index and priority arrays
+        for m in (1, 3, 8):
+            out.append({"kind": "float", "cap": m, "alpha": 0.6, "beta": 0.4, "every": 1, "defaults": True, "via_sampler": False,
+                        "ops": [["add", 1], ["update", [0], [7.25], "f64", "np"], ["add", m], ["sample", [0.0, U_MAX, 0.5]],
+                                ["update", [0, m - 1], [1e-7, 250.0], "f32", "np"], ["sample", [U_MAX, 0.0]]]})
+        return out
+
     def generate(self, tier, rng):
-        cases = self._generate(tier, rng)
+        cases = self._boundary_cases() + self._generate(tier, rng) + self._nstep_cases(tier, rng)
         for i, c in enumerate(cases):
-            if i % 2 == 0:
+            if i % 2 == 0 and c["kind"] != "nstep":
                 self._with_ranges(rng, c)
         return cases
 
@@ -251,8 +290,14 @@ class C11(vlib.Driver):
 
     # ------------------------------------------------------------------ implementation
     def run_impl(self, case):
+        if case["kind"] == "nstep":
+            return self.run_nstep(case)
         m = case["cap"]
-        buf = PrioritizedReplayBuffer(max_size=m, alpha=case["alpha"])
+        use_defaults = bool(case.get("defaults"))
+        if use_defaults and case["alpha"] == 0.6:
+            buf = PrioritizedReplayBuffer(max_size=m)              # alpha left to its default
+        else:
+            buf = PrioritizedReplayBuffer(max_size=m, alpha=case["alpha"])
         nxt = 1
         trace = []
         orig = torch.rand
@@ -270,6 +315,8 @@ class C11(vlib.Driver):
                             it, pt = torch.tensor(op[1], dtype=torch.int64), torch.tensor(op[2], dtype=dt)
                             if len(op) > 4 and op[4] == "col":   # (B, 1) tensors, as sample() returns idxs and the agents pass them back
                                 it, pt = it.unsqueeze(1), pt.unsqueeze(1)
+                            elif len(op) > 4 and op[4] == "np":  # numpy arrays (as the repository's own test passes them)
+                                it, pt = it.numpy(), pt.numpy()
                             buf.update_priorities(it, pt)
                         except AssertionError:
                             rec["raised"] = True
@@ -279,6 +326,8 @@ class C11(vlib.Driver):
                         try:
                             if case.get("via_sampler"):      # the path the training loops use (sampler.py: sample_per)
                                 s = Sampler(memory=buf).sample(len(op[1]), case["beta"])
+                            elif use_defaults and case["beta"] == 0.4:
+                                s = buf.sample(len(op[1]))             # beta left to its default
                             else:
                                 s = buf.sample(len(op[1]), beta=case["beta"])
                         except AssertionError:
@@ -330,6 +379,8 @@ class C11(vlib.Driver):
         return FLOOR if FLOOR > p else p
 
     def coq_term(self, case, obs):
+        if case["kind"] == "nstep":
+            return None                       # paired n-step buffer: oracle + theorem paired_rows_aligned (no K)
         exact = case["kind"] == "exact"
         terms = [self._term(case, obs, False)]
         if exact:
@@ -386,13 +437,15 @@ class C11(vlib.Driver):
             rngs = "[" + "; ".join(f"({a}, {b}, {num(sv)}, {onum(mv)})" for a, b, sv, mv in rec.get("ranges", [])) + "]"
             obl.append(f"({rec['len']}, {rec['ptr']}, {num(rec['maxp'])}, {trees}, {vlib.coq_bool(rec['raised'])}, {smp}, {rngs})")
         if as_q:
-            return f"check_exact {case['cap']} [{'; '.join(ops)}] [{'; '.join(obl)}]"
+            return f"check_exact {vlib.coq_bool(self.strict)} {case['cap']} [{'; '.join(ops)}] [{'; '.join(obl)}]"
         ta = "[" + "; ".join(f"({cq_f(k)}, {cq_f(v)})" for k, v in tabA.items()) + "]"
         tb = "[" + "; ".join(f"({cq_f(k)}, {cq_f(v)})" for k, v in tabB.items()) + "]"
-        return f"check_float {case['cap']} {ta} {tb} [{'; '.join(ops)}] [{'; '.join(obl)}]"
+        return f"check_float {vlib.coq_bool(self.strict)} {case['cap']} {ta} {tb} [{'; '.join(ops)}] [{'; '.join(obl)}]"
 
     # ------------------------------------------------------------------ oracle
     def oracle(self, case, obs):
+        if case["kind"] == "nstep":
+            return self.oracle_nstep(case, obs)
         m, alpha, beta = case["cap"], case["alpha"], case["beta"]
         out = []
         slots = {}                 # storage index -> tag (ReplayBuffer semantics recomputed here)
@@ -411,9 +464,18 @@ class C11(vlib.Driver):
             if rec.get("exc"):
                 V("raised", f"the operation failed with {rec['exc']}")
                 break
-            if op[0] == "update" and rec["raised"] != any(not (0 <= i < m) for i in op[1]):
-                V("update-raised", f"update_priorities({op[1]}, ...) raised={rec['raised']} with max_size {m}")
-                break
+            if op[0] == "update":
+                held = min(n_added, m)            # transitions stored before this op
+                if any(held <= i < m for i in op[1]) and not rec["raised"] and not any(not (0 <= i < m) for i in op[1]):
+                    # a slot that holds no transition was given a priority: from now on sample can return it
+                    out.append(Violation("update-unstored-accepted", "update-unstored-accepted",
+                                         f"op {oi}: update_priorities({op[1]}, ...) was accepted although only {held} of {m} slots hold a "
+                                         f"transition; leaves with positive priority afterwards: "
+                                         f"{[i for i, x in enumerate(rec['sum'][c:]) if x > 0]}"))
+                    break
+                if rec["raised"] != any(not (0 <= i < held) for i in op[1]):
+                    V("update-raised", f"update_priorities({op[1]}, ...) raised={rec['raised']} with len {held}, max_size {m}")
+                    break
             if rec["sum"] is None:
                 continue              # record already checked and slimmed
             st, mt = rec["sum"], [INF if x is None else x for x in rec["min"]]
@@ -426,7 +488,7 @@ class C11(vlib.Driver):
                     n_added += 1
             elif op[0] == "update":
                 for i, p in zip(op[1], eff_prios(op)):
-                    if not (0 <= i < m):
+                    if not (0 <= i < min(n_added, m)):
                         break
                     fp = max(p, FLOOR)
                     leaf_want[i] = fp ** alpha
@@ -545,8 +607,96 @@ class C11(vlib.Driver):
                 V("weights", f"weight of index {i} is {w[k]!r}, expected {want!r} (leaves {leaves[:n]}, beta {beta})")
                 return
 
+    # ------------------------------------------------------------------ n-step buffer paired with the prioritised buffer
+    def _nstep_cases(self, tier, rng):
+        """train_off_policy's pairing: n_step_memory.add(t) returns the 1-step transition once its window is full, that one goes
+        into the prioritised memory; batches are drawn with Sampler(memory).sample(B, beta) and the n-step rows with
+        Sampler(n_step_memory).sample(idxs) (sample_n_step -> sample_from_indices)."""
+        out = []
+        for _ in range(12 if tier == "quick" else 120):
+            m = rng.choice([2, 3, 4, 5, 8, 9])
+            E = rng.choice([1, 1, 2, 3])
+            E = min(E, m)
+            out.append({"kind": "nstep", "cap": m, "alpha": rng.choice([0.6, 1.0]), "beta": 0.4, "n": rng.choice([1, 2, 3]), "envs": E,
+                        "gamma": 0.5, "steps": rng.randint(3, 3 * m + 4),
+                        "sample_at": sorted(rng.sample(range(2, 3 * m + 4), 3)),
+                        "draws": [[self._draw(rng) for _ in range(rng.choice([1, 2, 4, 5]))] for _ in range(3)],
+                        "prios": [self._prio(rng, "f32") for _ in range(8)]})
+        return out
+
+    def run_nstep(self, case):
+        m, E = case["cap"], case["envs"]
+        memory = PrioritizedReplayBuffer(max_size=m, alpha=case["alpha"])
+        nmem = MultiStepReplayBuffer(max_size=m, n_step=case["n"], gamma=case["gamma"])
+        sampler, nsampler = Sampler(memory=memory), Sampler(memory=nmem)
+        trace, nxt, k = [], 1, 0
+        orig = torch.rand
+        try:
+            for step in range(case["steps"]):
+                tags = list(range(nxt, nxt + E)); nxt += E
+                t = make_transition(tags)
+                t["done"] = torch.zeros_like(t["done"])         # one long episode: windows are never cut
+                one = nmem.add(t)
+                if one is not None:
+                    memory.add(one)
+                rec = {"step": step, "len": len(memory), "nlen": len(nmem), "sample": None}
+                if step in case["sample_at"] and len(memory) > 0:
+                    us = case["draws"][k % len(case["draws"])]; k += 1
+                    torch.rand = ScriptedRand(us)
+                    try:
+                        b = sampler.sample(len(us), case["beta"])
+                    finally:
+                        torch.rand = orig
+                    nb = nsampler.sample(b["idxs"])
+                    idx = [int(i) for i in b["idxs"].reshape(-1)]
+                    rec["sample"] = {"idx": idx, "rows": row_tags(b), "nshape": [int(x) for x in nb.batch_size],
+                                     "nobs": [int(x) for x in np.asarray(nb["obs"], dtype=np.float64).reshape(len(idx), -1)[:, 0]],
+                                     "nact": [int(x) for x in np.asarray(nb["action"], dtype=np.float64).reshape(-1)],
+                                     "nreward": [float(x) for x in np.asarray(nb["reward"], dtype=np.float64).reshape(-1)],
+                                     "idxs_shape": [int(x) for x in b["idxs"].shape]}
+                    # priorities go back with the (B, 1) index column, as the training loop does
+                    pr = torch.tensor([case["prios"][(i + step) % len(case["prios"])] for i in range(len(idx))], dtype=torch.float32)
+                    memory.update_priorities(b["idxs"], pr)
+                trace.append(rec)
+        finally:
+            torch.rand = orig
+        return {"trace": trace}
+
+    def oracle_nstep(self, case, obs):
+        m, E, n, g = case["cap"], case["envs"], case["n"], case["gamma"]
+        out = []
+        for rec in obs["trace"]:
+            stored_steps = max(0, rec["step"] + 1 - (n - 1))             # windows completed so far
+            want_len = min(m, stored_steps * E)
+            if rec["len"] != want_len or rec["nlen"] != want_len:
+                out.append(Violation("nstep-len", "nstep-len", f"step {rec['step']}: len(memory)={rec['len']}, len(n_step_memory)={rec['nlen']}, expected {want_len}"))
+                break
+            smp = rec["sample"]
+            if smp is None:
+                continue
+            # slot -> tag of the window's first transition (both buffers are written in lockstep)
+            slots, cur = {}, 0
+            for w in range(stored_steps):
+                for e in range(E):
+                    slots[cur] = 1 + w * E + e
+                    cur = (cur + 1) % m
+            B = len(smp["idx"])
+            if any(not (0 <= i < want_len) for i in smp["idx"]):
+                out.append(Violation("index-stored", "nstep:index-stored", f"step {rec['step']}: sampled {smp['idx']} with {want_len} stored")); break
+            if smp["nshape"] != [B]:
+                out.append(Violation("nstep-shape", "nstep-shape", f"step {rec['step']}: n-step batch has batch_size {smp['nshape']} for {B} indices of shape {smp['idxs_shape']}")); break
+            want = [slots[i] for i in smp["idx"]]
+            if smp["rows"] != want or smp["nobs"] != want or smp["nact"] != want:
+                out.append(Violation("nstep-aligned", "nstep-aligned", f"step {rec['step']}: indices {smp['idx']}: 1-step rows {smp['rows']}, n-step rows obs {smp['nobs']} action {smp['nact']}, stored windows start at {want}")); break
+            wr = [sum((g ** j) * (t + j * E) for j in range(n)) for t in want]      # reward of transition tag t is t
+            if any(abs(a - b) > 1e-3 * max(1.0, abs(b)) for a, b in zip(smp["nreward"], wr)):
+                out.append(Violation("nstep-reward", "nstep-reward", f"step {rec['step']}: n-step rewards {smp['nreward']} expected {wr}")); break
+        return out
+
     # ------------------------------------------------------------------ bookkeeping
     def _flags(self, case):
+        if case["kind"] == "nstep":
+            return case["steps"] * case["envs"] > case["cap"], True
         m = case["cap"]
         ptr, size, adds, wrapped, sampled = 0, 0, 0, False, False
         for op in case["ops"]:
@@ -565,8 +715,16 @@ class C11(vlib.Driver):
         return w or s
 
     def classify(self, case, obs):
+        if case["kind"] == "nstep":
+            labs = ["kind=nstep", f"n_step={case['n']}", f"envs={case['envs']}", "sample-via=Sampler.sample_per+sample_n_step"]
+            labs += ["op=nstep-sample" for r in obs["trace"] if r["sample"]]
+            if case["steps"] * case["envs"] > case["cap"]:
+                labs.append("wrap-around")
+            return labs
         m = case["cap"]
-        labs = [f"kind={case['kind']}", "sample-via=" + ("Sampler.sample_per" if case.get("via_sampler") else "buffer.sample"), f"max_size={m if m <= 9 else '>9'}", f"alpha={case['alpha']}", f"beta={case['beta']}",
+        if case.get("defaults"):
+            pass
+        labs = [f"kind={case['kind']}", "defaults=" + ("alpha/beta-not-passed" if case.get("defaults") else "explicit"), "sample-via=" + ("Sampler.sample_per" if case.get("via_sampler") else "buffer.sample"), f"max_size={m if m <= 9 else '>9'}", f"alpha={case['alpha']}", f"beta={case['beta']}",
                 "capacity=" + ("pow2" if m & (m - 1) == 0 else "non-pow2")]
         w, s = self._flags(case)
         if w:
@@ -578,6 +736,10 @@ class C11(vlib.Driver):
             for a, b, _, _ in rec.get("ranges", []):
                 labs.append("range-query:" + ("full" if (a == 0 and b in (0, rec["tcap"])) else "single-leaf" if b == a + 1 else "partial"))
             if op[0] == "update":
+                if len(op) > 4:
+                    labs.append(f"update-args={op[4]}")
+                if any(i != m and i >= rec["len"] for i in op[1]):
+                    labs.append("branch:update-unstored-index")
                 if any(p < FLOOR for p in eff_prios(op)):
                     labs.append("branch:priority-floored")
                 if len(set(op[1])) < len(op[1]):
@@ -598,6 +760,8 @@ class C11(vlib.Driver):
         return labs
 
     def neighbours(self, case, rng):
+        if case["kind"] == "nstep":
+            return
         for i in range(len(case["ops"])):
             ops = case["ops"][:i] + case["ops"][i + 1:]
             size, keep = 0, []
